@@ -37,10 +37,14 @@ theorem named_algebras_admissible :
     Gen.namedBases.all (fun (_, _, _, _, sig, names) => (Cfg.custom sig names).admissible) = true := by
   decide +kernel
 
-/-- the rejection clause as the code implements it: `Algebra.__eq__` compares exactly the extracted
-    `compare=True` fields; signature and start index are not among them (see known finding F8) -/
-theorem equality_ignores_signature_witness :
-    Gen.compareFields.contains "signature" = false ∧ Gen.compareFields.contains "start_index" = false := by
+/-- the rejection clause: `Algebra.__eq__`, probed on the current source, distinguishes algebras whose metric
+    (signature order, null-vector position, (p,q,r)) or basis (spelling, generator order, custom vs default) differ,
+    and identifies equal ones (after fix aa10c35); `OperatorDict` raises AlgebraError for unequal algebras.
+    A different start index alone is a pure renaming and is deliberately not distinguished. -/
+theorem equality_distinguishes_metric_and_basis :
+    ["signature-order", "signature-null-position", "pqr", "basis-spelling", "basis-generator-order",
+     "custom-vs-default-basis"].all (fun a => Gen.equalityProbe.lookup a == some true) = true ∧
+    Gen.equalityProbe.lookup "same" = some false := by
   decide
 
 end Kingdon.C14
